@@ -6,18 +6,37 @@
 
    Each step records the call, its result, the projection of the disk the replay can observe
    (height, persisted windows with their bits, snapshot) and a `tag` - the abstract situation the
-   step ended in (head position relative to the window, filter initialised?, cache warm?, snapshot?).
+   step ended in (head position relative to the window, filter initialised?, cache warm?, snapshot?)
+   and `kills`: next to the configured mechanism the module runs every alternative mechanism of
+   MCRevertWin!AltMechs (other purge offsets, re-opened window left on disk, snapshot not consumed,
+   reverted column not cleared) on its own ghost node through the same calls; an alternative is
+   "killed" at the first step at which its result or its observable disk differs.
    checks/C04.py selects, from many generated behaviours, a small set that covers the
-   (situation, action, situation) triples; the selection is by situation only, never by defect. *)
+   (situation, action, situation) triples and kills every alternative several times in different
+   situations - i.e. behaviours on which the code's mechanism can be told from its neighbours. *)
 EXTENDS MCRevertWin, Json
 
 CONSTANT MaxSteps
 
-VARIABLE hist
-mbtvars == <<wvars, hist>>
+VARIABLES hist,
+          alts    \* ghost: the alternative mechanisms not yet distinguished, each with its own node
+mbtvars == <<wvars, hist, alts>>
 steps == Len(hist)
 
-MBTInit == WInit /\ hist = <<>>
+AllAlts == {[n |-> a.n, m |-> a.m, N |-> InitNode] : a \in AltMechs}
+MBTInit == WInit /\ hist = <<>> /\ alts = AllAlts
+
+(* the call `a` made on node N under mechanism m: new node and result, shaped like `res` *)
+ApplyM(m, N, a) ==
+  IF a.name = "Store" THEN LET x == StoreM(m, N, a.blk) IN [N |-> x.N, res |-> [kind |-> OkOf(x.ok)]]
+  ELSE IF a.name = "Revert" THEN LET x == RevertM(m, N) IN [N |-> x.N, res |-> [kind |-> OkOf(x.ok)]]
+  ELSE IF a.name = "Restart" THEN [N |-> RestartM(m, N, a.graceful), res |-> [kind |-> "ok"]]
+  ELSE IF a.name = "Query" THEN LET x == QueryM(m, N, a.f, a.from, a.to) IN [N |-> x.N, res |-> [kind |-> OkOf(x.ok), ev |-> x.ev]]
+  ELSE LET x == SweepM(m, N, FilterMenu) IN [N |-> x.N, res |-> [kind |-> "ok", evs |-> x.evs]]
+
+ProjOf(N) == [height |-> HeightOf(N.chain),
+              pers |-> {[w |-> w, bits |-> N.pers[w]] : w \in DOMAIN N.pers},
+              snapok |-> N.snap.ok, snapnext |-> N.snap.next]
 
 R(S) == {RandomElement(S)}
 
@@ -45,21 +64,22 @@ SimNext ==
 
 Pos(h) == IF h % W = W - 1 THEN "end" ELSE IF h % W = 0 THEN "start" ELSE IF h % W = W - 2 THEN "before-end" ELSE "inside"
 
-Proj == [height |-> HeightOf(chain'),
-         pers |-> {[w |-> w, bits |-> pers'[w]] : w \in DOMAIN pers'},
-         snapok |-> snap'.ok, snapnext |-> snap'.next]
+Proj == ProjOf([chain |-> chain', pers |-> pers', snap |-> snap'])
 Tag == [pos |-> Pos(HeightOf(chain')), hot |-> run'.ok, warm |-> cache' # EmptyF, snap |-> snap'.ok]
 
 Step ==
   /\ SimNext
-  /\ hist' = Append(hist, [a |-> act', res |-> res', st |-> Proj, tag |-> Tag])
+  /\ LET outs == {[n |-> a.n, m |-> a.m, x |-> ApplyM(a.m, a.N, act')] : a \in alts}
+         killed == {o \in outs : o.x.res # res' \/ ProjOf(o.x.N) # Proj} IN
+     /\ alts' = {[n |-> o.n, m |-> o.m, N |-> o.x.N] : o \in outs \ killed}
+     /\ hist' = Append(hist, [a |-> act', res |-> res', st |-> Proj, tag |-> Tag, kills |-> {o.n : o \in killed}])
 
 Emit ==
   /\ PrintT(ToJson(hist))
   /\ chain' = InitNode.chain /\ pers' = InitNode.pers /\ snap' = InitNode.snap
   /\ run' = InitNode.run /\ cache' = InitNode.cache
   /\ gstops' = 0 /\ act' = [name |-> "Init"] /\ res' = [kind |-> "ok"]
-  /\ hist' = <<>>
+  /\ hist' = <<>> /\ alts' = AllAlts
 
 MBTNext == IF steps >= MaxSteps THEN Emit ELSE Step
 =============================================================================
